@@ -4,7 +4,9 @@
     (dry runs among them);
 (2) dry-vs-real differential at conductor level: every generated study
     (parameterised, +-hashws, throttle 0/1/2, restart commands) is run through the
-    real `Conductor.monitor_study` once with --dry and the real adapter, and once
+    real `Conductor.monitor_study` - half of the time by way of the real command
+    (`maestro run -fg [--dry]` with the batch block in the specification) - once with
+    --dry and the real adapter, and once
     for real with the same adapter's script generation but a scripted all-success
     scheduler; compared: calls received by the adapter (none in the dry run),
     the directory tree and the byte content of every script, status.csv (all
@@ -64,6 +66,76 @@ def _run_conductor(study, batch, calls):
         cmod.sleep = saved
 
 
+def _run_cli(spec, root, batch, opts, dry):
+    """the same through the real command: `maestro run -fg -y [--dry] ...` (maestrowf.maestro.main())"""
+    import contextlib
+    import io
+    import logging
+    import sys
+    import yaml
+    import maestrowf.conductor as cmod
+    import maestrowf.maestro as mmod
+    from maestrowf.conductor import Conductor
+    n = [0]
+    seen = {}
+
+    def sleep(_t):
+        n[0] += 1
+        if n[0] > 60:
+            raise Stop()
+    orig_init, orig_mon = Conductor.initialize, Conductor.monitor_study
+
+    def init(self, *a, **kw):
+        r = orig_init(self, *a, **kw)
+        seen["dag"] = self._exec_dag
+        return r
+
+    def mon(self):
+        r = orig_mon(self)
+        seen["ret"] = r.name
+        return r
+    doc = dict(spec)
+    doc["batch"] = dict(batch)
+    os.makedirs(os.path.dirname(root), exist_ok=True)
+    path = root + ".yaml"
+    with open(path, "w") as f:
+        yaml.safe_dump(doc, f, sort_keys=False)
+    args = ["maestro", "run", "-fg", "-y", "-s", "1", "-o", root, "-r", str(opts["rlimit"]), "-t", str(opts["throttle"])]
+    if opts["hash_ws"]:
+        args.append("--hashws")
+    if opts["use_tmp"]:
+        args.append("--usetmp")
+    if dry:
+        args.append("--dry")
+    saved_sleep, argv = cmod.sleep, sys.argv
+    root_logger = logging.getLogger()
+    handlers = list(root_logger.handlers)
+    cmod.sleep = sleep
+    Conductor.initialize, Conductor.monitor_study = init, mon
+    sys.argv = args + [path]
+    try:
+        try:
+            with contextlib.redirect_stdout(io.StringIO()):
+                mmod.main()
+        except SystemExit:
+            pass
+        except Stop:
+            seen["ret"] = "NONTERMINATION"
+    finally:
+        cmod.sleep, sys.argv = saved_sleep, argv
+        Conductor.initialize, Conductor.monitor_study = orig_init, orig_mon
+        for h in list(root_logger.handlers):
+            if h not in handlers:
+                root_logger.removeHandler(h)
+                try:
+                    h.close()
+                except Exception:  # noqa
+                    pass
+    if "dag" not in seen:
+        raise RuntimeError("the command did not get as far as the conductor")
+    return seen.get("ret", "NONE"), seen["dag"]
+
+
 def batch_of(which):
     if which == "local":
         return {"type": "local"}
@@ -100,17 +172,25 @@ def dry_vs_real(ctx, k):
     counting = S.make_counting(real_cls, calls)
     scripted = S.make_scripted(real_cls, calls)
     mon = []
+    # half of the pairs go through the real command (`maestro run [--dry] -fg`), the other half
+    # through Study + Conductor directly
+    entry = "maestro run" if rng.random() < 0.5 else "conductor"
+    opts = {"hash_ws": hash_ws, "rlimit": rlimit, "throttle": throttle, "use_tmp": use_tmp}
     try:
-        try:
-            _y, study_d = SS.load_study(spec, root_d, hash_ws=hash_ws, rlimit=rlimit, throttle=throttle, dry=True,
-                                        use_tmp=use_tmp)
-        except Exception:  # noqa
-            return None
+        if entry == "conductor":
+            try:
+                _y, study_d = SS.load_study(spec, root_d, hash_ws=hash_ws, rlimit=rlimit, throttle=throttle, dry=True,
+                                            use_tmp=use_tmp)
+            except Exception:  # noqa
+                return None
         ScriptAdapterFactory.factories[which] = counting
         ScriptAdapterFactory.factories["local"] = counting if which == "local" else S.make_counting(
             S._saved_local, calls)
         try:
-            ret_d, dag_d = _run_conductor(study_d, batch_of(which), calls)
+            if entry == "conductor":
+                ret_d, dag_d = _run_conductor(study_d, batch_of(which), calls)
+            else:
+                ret_d, dag_d = _run_cli(spec, root_d, batch_of(which), opts, True)
         except Exception as e:  # noqa  (staging errors such as workspace-before-generated: not C17)
             return None
         calls_d = list(calls)
@@ -118,12 +198,15 @@ def dry_vs_real(ctx, k):
         spec_r = dict(spec)
         spec_r["env"] = {k_: dict(v) if isinstance(v, dict) else v for k_, v in spec["env"].items()}
         spec_r["env"]["variables"]["OUTPUT_PATH"] = root_r
-        _y, study_r = SS.load_study(spec_r, root_r, hash_ws=hash_ws, rlimit=rlimit, throttle=throttle, dry=False,
-                                    use_tmp=use_tmp)
         ScriptAdapterFactory.factories[which] = scripted
         ScriptAdapterFactory.factories["local"] = scripted if which == "local" else S.make_scripted(
             S._saved_local, calls)
-        ret_r, dag_r = _run_conductor(study_r, batch_of(which), calls)
+        if entry == "conductor":
+            _y, study_r = SS.load_study(spec_r, root_r, hash_ws=hash_ws, rlimit=rlimit, throttle=throttle, dry=False,
+                                        use_tmp=use_tmp)
+            ret_r, dag_r = _run_conductor(study_r, batch_of(which), calls)
+        else:
+            ret_r, dag_r = _run_cli(spec_r, root_r, batch_of(which), opts, False)
     finally:
         ScriptAdapterFactory.factories[which] = real_cls
         ScriptAdapterFactory.factories["local"] = S._saved_local
@@ -149,7 +232,7 @@ def dry_vs_real(ctx, k):
             diff = [p for p in set(fd) | set(fr) if fd.get(p) != fr.get(p)]
             mon.append(("all-generated", "scripts differ from the real run: %s" % sorted(diff)[:4]))
     data = {"kind": "dry-vs-real", "spec": spec, "adapter": which, "hash_ws": hash_ws, "throttle": throttle,
-            "use_tmp": use_tmp,
+            "use_tmp": use_tmp, "entry": entry,
             "dry_return": ret_d, "real_return": ret_r}
     return Case(data, [], [], mon[:4], bool(spec.get("global.parameters")))
 
@@ -163,7 +246,7 @@ def run(ctx, escalated=False):
         c = dry_vs_real(ctx, k)
         if c is not None:
             extra.append(c)
-            ctx.count("dry-vs-real:%s" % c.data["adapter"])
+            ctx.count("dry-vs-real:%s:%s" % (c.data["entry"], c.data["adapter"]))
         if k % 40 == 39:
             import shutil
             shutil.rmtree(os.path.join(ctx.scratch, "dv"), ignore_errors=True)
